@@ -19,8 +19,8 @@ import (
 
 func init() {
 	register("C10", &propDef{
-		Run: checkC10,
-		Explanation: "Static decision of the structural clauses of C10: (1) exhaustively, at every printf-style call site of the module's non-test code the format operand is a compile-time constant, or a concatenation of constants with the enclosing wrapper's own format parameter whose variadic is forwarded — so no computed (client-influenced) string is ever interpreted as a format; printf-style functions are discovered by forwarding analysis from the standard library's formatters, closures included; (2) the operator-channel sink prints CLine.Line through a constant \"%s\" and no CLine.Line value reaches a format position; (3) constant formats agree with their arguments (go vet's printf pass run in-process on the module with the discovered wrappers, plus a verb/argument count of our own), so no %!verb(MISSING)/EXTRA artefacts; (4) no notice format truncates a string argument with a precision. Not decided: Go-quoting by %q of IDs (data, not a format).",
+		Run:         checkC10,
+		Explanation: "Static decision of the structural clauses of C10: (1) exhaustively, at every printf-style call site of the module's non-test code the format operand is a compile-time constant, or a concatenation of constants with the enclosing wrapper's own format parameter whose variadic is forwarded — so no computed (client-influenced) string is ever interpreted as a format; printf-style functions are discovered by forwarding analysis from the standard library's formatters, closures included; (2) the operator-channel sink prints CLine.Line through a constant \"%s\" and no CLine.Line value reaches a format position; (3) constant formats agree with their arguments (go vet's printf pass run in-process on the module with the discovered wrappers, plus a verb/argument count of our own), so no %!verb(MISSING)/EXTRA artefacts; (4) no notice format truncates a string argument with a precision. Not decided: Go-quoting by %q of IDs (data, not a format). Also: every value stored into CLine.Line is rooted in the storing call's own values; a bytes.Buffer/strings.Builder/[]byte field or package variable on the way is refuted unless a mutex of the same struct is must-held.",
 		Assumptions: []string{
 			"fmt interprets only the format operand; arguments are rendered as data",
 			"functions outside the module count as printf-style when named *f with a trailing (string, ...any) pair or listed by go vet",
